@@ -73,12 +73,16 @@ static uint8_t find_in_history_list(HistoryLinkedList *list, uint8_t count)
  * coded rank under the stream's start header (rb_header: ghost, set by the harness; the stub checks the decoder
  * agrees) and returns the history entry at that rank - here an arbitrary byte per call, the rank is recorded */
 static const u8 *rb_vals;
-static unsigned rb_calls, rb_rank[BLOCK_MAX], rb_header_ok = 1, rb_header;
+static unsigned rb_calls, rb_rank[BLOCK_MAX], rb_start[BLOCK_MAX], rb_end[BLOCK_MAX], rb_header_ok = 1, rb_header;
 static int read_byte(LHAPM1Decoder *decoder)
 {
 	unsigned k = rb_calls++;
 	if (decoder->byte_decode_tree != byte_decode_trees[rb_header]) rb_header_ok = 0;
-	if (k < BLOCK_MAX) rb_rank[k] = pm1_ref_rank(rb_header, &bs_pos);
+	if (k < BLOCK_MAX) {
+		rb_start[k] = bs_pos;
+		rb_rank[k] = pm1_ref_rank(rb_header, &bs_pos);       /* the reference decode, at the place the code asks for a byte */
+		rb_end[k] = bs_pos;
+	}
 	return rb_vals[k < BLOCK_MAX ? k : 0];
 }
 /* contract of outputted_byte (harness_outb): byte appended to the window, the history and the output count */
@@ -243,7 +247,7 @@ void harness_read(void)
 	INPUT(u32, skip); INPUT(u32, opos); INPUT(u32, pos0); INPUT(u32, row); INPUT(u32, cret);
 	LHAPM1Decoder d0;
 	u8 out[OUTPUT_BUFFER_SIZE];
-	unsigned cur, header, is_block, blen = 0, i, rank[BLOCK_MAX];
+	unsigned cur, header, is_block, blen = 0, i;
 	size_t n;
 	ASSUME(skip < 8 && opos < 0x7fff0000u && pos0 < RING_BUFFER_SIZE && row <= 32 && cret <= MAX_COPY_BLOCK_LEN);
 	ALIGN(skip);
@@ -259,7 +263,6 @@ void harness_read(void)
 	if (is_block) {
 		blen = pma_ref_rows(pm1_ref_block_len, 5, &cur);
 		ASSUME(blen <= BLOCK_MAX);
-		for (i = 0; i < BLOCK_MAX; ++i) if (i < blen) rank[i] = pm1_ref_rank(header, &cur);
 	}
 	dec = d0;
 	dec.output_stream_pos = opos;
@@ -270,8 +273,11 @@ void harness_read(void)
 
 	CHECK(dec.byte_decode_tree == byte_decode_trees[header], "C04: the 5-bit stream header selects the byte code for the whole stream");
 	CHECK(rb_calls == blen && ob_calls == blen && rb_header_ok, "C04: a block of the coded length: one coded byte (under the stream's start header) and one output per position");
+	/* the coded ranks follow the block length back to back (the stub decodes each with the reference where the
+	 * code asks for it), and the copy starts right after the last one */
 	for (i = 0; i < BLOCK_MAX; ++i) if (i < blen) {
-		CHECK(rb_rank[i] == rank[i], "C04: i-th byte of a block is the i-th coded rank after the block length");
+		CHECK(rb_start[i] == cur, "C04: i-th byte of a block is the i-th coded rank after the block length");
+		cur = rb_end[i];
 		CHECK(out[i] == vals[i] && ob_log[i] == vals[i], "C04: i-th byte of a block is the byte decoded for it, delivered and appended in order");
 	}
 	/* every command ends with a copy (a block of <= BLOCK_MAX bytes is never the maximal one) */
